@@ -3,7 +3,8 @@ C10 — deterministic patterns match their reference definitions: the ext2 group
 
 Proved here: `PFilterByKey` / `PNearestNoteInKey` element-wise in terms of the functions of the Tonal model
 (`IsobarV/Tonal/Model.lean`: `pFilterByKey`, `pNearestNoteInKey`, whose own specification is C13's), `PKeyTonic`,
-`PKeyScale`, `PFunc` element-wise.  NOT proved (time): the closed forms of `PMetropolis` (cycle of, per note,
+`PKeyScale`, `PFunc` element-wise.  `PMetropolis` block by block: `Props/C10_Metropolis.lean` (added later).  NOT proved
+(time): the closed forms of `PMetropolis` as ONE list function over the whole cycle (cycle of, per note,
 `repeats[i]` times the note then `rests[i] + 1` rests), `PSequenceAction` (concatenation of `fn^i(list)`, `i < repeats`)
 and `PPatternGeneratorAction` (endless repetition of the generated sequence): for these the file only carries
 evaluated instances (`example … := by decide`); the closed forms are checked on the implementation by the independent
